@@ -644,8 +644,12 @@ func prettyMem(value int64) string {
 }
 
 // newRequest creates a new request for the given container.
-func newRequest(container cache.Container, types libmem.TypeMask) Request {
-	pod, _ := container.GetPod()
+func newRequest(container cache.Container, types libmem.TypeMask) (Request, error) {
+	pod, ok := container.GetPod()
+	if !ok {
+		return nil, policyError("can't create request for container %s, its pod is unknown",
+			container.PrettyName())
+	}
 	full, fraction, isolate, cpuType, prio := cpuAllocationPreferences(pod, container)
 	req, lim, mtype := memoryAllocationPreference(pod, container)
 	coldStart := time.Duration(0)
@@ -690,7 +694,7 @@ func newRequest(container cache.Container, types libmem.TypeMask) Request {
 		memType:   mtype,
 		coldStart: coldStart,
 		prio:      prio,
-	}
+	}, nil
 }
 
 // GetContainer returns the container requesting CPU.
